@@ -26,12 +26,12 @@ theorem stopReq_pres (cfg : Cfg) : Pres cfg (stopReq cfg) := by
     split
     · rename_i ek tag henv
       split
-      · refine handleFetchError_good cfg _ h1 rfl hpk (fun hP ho => ?_)
+      · refine handleFetchError_good cfg _ (by intro h; cases h) h1 rfl hpk (fun hP ho => ?_)
         have hek : ek = .outOfRange := by cases ek <;> simp [Fail.isOutOfRange] at ho ⊢
         subst hek
         have : s.envReq = some (.outOfRange, tag) := by simpa [emit] using henv
         exact absurd rfl ((hs.inc hP).envOk _ _ this)
-      · exact handleOffsetError_good cfg _ h1 rfl hpk
+      · exact handleOffsetError_good cfg _ (by intro h; cases h) h1 rfl hpk
     · exact h1
   · exact hx
 
@@ -57,7 +57,7 @@ theorem stopBlockProc_good {s0 s : St} (h : Good cfg s0 s) (hst : s.stopping = t
       | none => rfl
       | some fr => exact absurd (h.1.g1.frameProc (by rw [hff]; rfl)) (by rw [hp]; simp)
     simp only [stopBlock_proc, hp]
-    obtain ⟨g1, p1, st1, l1, y1⟩ := procFired_stop_good hin g (.ext .cancelled 0) h.1 hp hst
+    obtain ⟨g1, p1, st1, l1, y1⟩ := procFired_stop_good hin g (.ext .cancelled 0) (by intro h; cases h) h.1 hp hst
     have h2 := fun p => procResume_good hin hc g p g1 p1 (by rw [g1.2]; exact hf) (Or.inr st1) l1 y1
     refine Good.trans h ?_
     unfold procResult
@@ -76,7 +76,7 @@ theorem stopCommitReq_pres : Pres cfg (stopCommitReq cfg inner) := by
     have hne := sf_ne_commit hs r hr
     simp only []
     split
-    · exact (handleCommitError_pres hin _ _ _).step (by leaf hx)
+    · exact (handleCommitError_pres hin _ (by intro h; cases h) _ _).step (by leaf hx)
     · leaf hx
   · exact hx
 
